@@ -2864,6 +2864,16 @@ def check_C14(tier):
     # names that share a token number (synonyms for one lexer code; two names for the end marker)
     srcs.append(("alias:eof", "%token NUM\n%token EOF -1\n%token END -1\n%left '+'\n%start E\n%%\nE : E '+' E | NUM ;\n%%\n"))
     srcs.append(("alias:num", "%token NUM 299\n%token NE 300\n%token NEQ 300\n%token ID 300\n%start E\n%%\nE : E NE E | E NEQ NUM | ID | NUM ;\n%%\n"))
+    # wide rows with an exact tie for the most frequent value (the default action of a packed row): in the state after A_j
+    # K columns reduce x_j and the other K = 2 + J + M columns are empty; several such rows per grammar, several widths
+    for K in (12, 40, 70, 130):
+        J = 6
+        M = K - 2 - J
+        src = "%{\npackage main\n%}\n%union { v int }\n" + "".join("%%token A%d\n" % j for j in range(J)) + \
+              "".join("%%token T%d\n" % i for i in range(K)) + "".join("%%token U%d\n" % i for i in range(M)) + "%start s\n%%\ns : " + \
+              "\n  | ".join(["x%d T%d" % (j, i) for j in range(J) for i in range(K)] + ["U%d" % i for i in range(M)]) + "\n  ;\n" + \
+              "".join("x%d : A%d ;\n" % (j, j) for j in range(J)) + "%%\n"
+        srcs.append(("widetie:%d" % K, src))
     N = 6 if tier == "quick" else 20
     optsets = [("go", []), ("go", ["-u"]), ("go", ["-o"]), ("go", ["-o", "-u"]), ("typescript", [])]
     jobs = []
@@ -3248,7 +3258,8 @@ C18_THEOREMS = ["Y.Props.C18_views", "Y.Props.C18_determines", "Y.Props.C18_dete
 C18_THEOREMS += ["Y.Props.C18_listing_states", "Y.Props.C18_listing_la", "Y.Props.C18_listing_determines", "Y.Props.C18_listing_determines_auto",
                  "Y.Props.C18_listing_determined", "Y.Props.C18_listing_mem", "Y.Props.list_item_str_injective", "Y.Props.list_goto_str_injective", "Y.Props.la_line_injective"]
 C18_THEOREMS += ["Y.Props.C18_listing_sets", "Y.Props.C18_listing_follow", "Y.Props.C18_listing_trans", "Y.Props.set_line_injective",
-                 "Y.Props.follow_line_injective", "Y.Props.tr_shift_injective", "Y.Props.trReduceStr_prefix"]
+                 "Y.Props.follow_line_injective", "Y.Props.tr_shift_injective", "Y.Props.trReduceStr_prefix", "Y.Props.tr_reduce_injective",
+                 "Y.Props.tr_line_injective", "Y.Props.tr_shift_ne_reduce"]
 C18_MODULES = ["Yv.Props.C18", "Yv.Props.C18b", "Yv.Props.C18c"]
 C18_LEVEL = "proof"
 
